@@ -428,7 +428,8 @@ theorem import_line_without_convention (imp : String) :
 /-! ### 4. foreign classes: the placeholder stub and the import line -/
 
 /-- For every class path `c` in `outside`, `createStubFiles` performs an operation on the placeholder file
-    `outsideFile c` (`a/b/b.sdsstub` for `a.b.C`, see `C10.placeholder_path_spells_package`): it writes the
+    `outsideFile c` (`a/b/<b without leading underscores>.sdsstub` for `a.b.C`: `a/b/b.sdsstub`, and
+    `a/_b/b.sdsstub` for `a._b.C`; see `C10.placeholder_path_spells_package`): it writes the
     package header and the class, or appends the class to the file written earlier in the same loop. -/
 theorem foreign_placeholder_exists (safe : Bool) (stubs : List StubData) (outside pre : List String)
     (ops : List WriteOp) (h : createStubFiles safe stubs outside pre = .ok ops) :
@@ -436,6 +437,11 @@ theorem foreign_placeholder_exists (safe : Bool) (stubs : List StubData) (outsid
       ∧ ((op.mode = .append ∧ op.text = outsideClassText (lastD "" (splitDot c)) safe)
          ∨ (op.mode = .write ∧ op.text = outsideHeader safe c ++ outsideClassText (lastD "" (splitDot c)) safe)) :=
   q11_createStubFiles_placeholder h
+
+/-- the placeholder file: the directory spells the module path, the file name is the module name without its
+    leading underscores -/
+example : outsideFile "a.b.C" = "a/b/b.sdsstub" ∧ outsideFile "a._b.C" = "a/_b/b.sdsstub"
+    ∧ outsideFile "other_lib._impl.Thing" = "other_lib/_impl/impl.sdsstub" := by decide +kernel
 
 /-- … for a whole run of the generator -/
 theorem foreign_placeholder_exists_run (api : API) (safe : Bool) (pre : List String) (r : GenResult)
